@@ -19,6 +19,14 @@ def gen_cases(ctx):
             for m in range(5):
                 for s in range(2):
                     cases.append((enc, 10, [d, m, s]))
+        # adjustment of DATETIMES WITH A TIME OF DAY, and the four predicates there (Model/SubDay.v: exact holiday look-up, so
+        # such a datetime sees the week mask alone; the time of day is carried through)
+        for d in calgen.interesting_dates(rng, info, lo, hi, 3):
+            t = rng.choice([1, 43199, 43200, 43201, 54000, 86399, rng.randint(1, 86399)])
+            cases.append((enc, 44, [d, t]))
+            cases.append((enc, 44, [d, 0]))
+            for m in range(1, 5):
+                cases.append((enc, 40, [d, m, rng.randrange(2), t]))
         # the CONVENIENCE FORM of adjustment: add_days(d, n, modifier, settlement) = roll(d + n, ..) - n = 0 and small n
         for d in calgen.interesting_dates(rng, info, lo, hi, 4):
             for n in (0, rng.choice([1, -1, 2, -3, 7])):
@@ -52,9 +60,9 @@ def gen_cases(ctx):
 
 
 def nontrivial(enc, op, args, out):
-    if op in (10, 13):
+    if op in (10, 13, 40):
         return len(out) == 2 and out[0] == 0 and out[1] != args[0]   # the roll moved the date
-    return op == 31
+    return op in (31, 44)
 
 
 def run(ctx):
@@ -73,7 +81,7 @@ def run(ctx):
                        "week masks leave a common working weekday (as the property states)"]
     if translate_stage(ctx) is None:
         return ctx.finish("make theories/Props/C04.vo")
-    if not proof_stage(ctx, ["theories/Run/RunCal.vo"]):
+    if not proof_stage(ctx, ["theories/Run/RunCal.vo", "theories/Proofs/SubDayP.vo"]):
         ctx.violation("a C04 proof obligation or the model no longer compiles", {"no_failing_input": True, "theorem": "Props/C04.v / Run/RunCal.v", "log_tail": getattr(ctx, "build_log", "")[-3000:]})
         return ctx.finish("make theories/Props/C04.vo")
     if not harness_stage(ctx):
